@@ -48,6 +48,7 @@ def build_linker(case: dict, api):
                     "b": pa.array([r["b"] for r in rows], pa.string()),
                     "c": pa.array([r["c"] for r in rows], pa.int64()),
                     "arr": pa.array([r["arr"] for r in rows], pa.list_(pa.string())),
+                    "arr2": pa.array([r.get("arr2") for r in rows], pa.list_(pa.string())),
                 }
             )
             frames.append(tbl)
@@ -59,7 +60,7 @@ def build_linker(case: dict, api):
         if r["kind"] == "salted":
             brs.append({"blocking_rule": text, "salting_partitions": r["n"]})
         elif r["kind"] == "exploding":
-            brs.append({"blocking_rule": text, "arrays_to_explode": ["arr"]})
+            brs.append({"blocking_rule": text, "arrays_to_explode": bg.arr_cols(r["ast"]) or ["arr"]})
         else:
             brs.append(text)
     settings = SettingsCreator(
@@ -206,7 +207,7 @@ def gen_case(rng: random.Random, engine=None, force=None):
     engine = engine or rng.choice(["duckdb", "duckdb", "sqlite"])
     k = rng.choice([1, 1, 2, 2, 3])
     link_type = "dedupe_only" if k == 1 else rng.choice(["link_only", "link_and_dedupe"])
-    with_arr = engine == "duckdb" and rng.random() < 0.3
+    with_arr = engine == "duckdb" and (rng.random() < 0.3 or force == "arr")
     idtype = rng.choice(["int", "int", "str"])
     tables = bg.gen_tables(rng, k, max_rows=rng.choice([3, 5, 8]), idtype=idtype, with_arr=with_arr)
     nrules = rng.choice([0, 1, 1, 2, 2, 3, 4])
@@ -223,6 +224,8 @@ def gen_case(rng: random.Random, engine=None, force=None):
             ast = bg.gen_rule(rng, depth=1, asym_ok=False, arr=True)
             if not bg.uses_arr(ast):
                 ast = ("and", ("arr", "arr"), ast) if rng.random() < 0.5 else ("arr", "arr")
+            if rng.random() < 0.35:  # explode TWO array columns in one rule
+                ast = ("and", ("and", ("arr", "arr"), ("arr", "arr2")), ast) if ast not in (("arr", "arr"), ("arr", "arr2")) else ("and", ("arr", "arr"), ("arr", "arr2"))
             # the exploded column must be used conjunctively at the top (as in practice)
             rules.append({"kind": kind, "ast": ast})
         else:
@@ -272,6 +275,15 @@ def gen_cases(ctx):
     n = ctx.budget(320, 6000)
     for _ in range(n):
         cases.append(gen_case(rng))
+    # adversarial family: rules exploding TWO array columns (the exploded table must hold the cross product of the elements):
+    # arrays of different lengths, shared elements at different positions, NULL / empty arrays; alone, before and after a plain rule
+    for _ in range(ctx.budget(40, 500)):
+        c = gen_case(rng, engine="duckdb", force="arr")
+        two = {"kind": "exploding", "ast": ("and", ("arr", "arr"), ("arr", "arr2"))}
+        plain = [r for r in c["rules"] if r["kind"] == "plain"][:1]
+        c["rules"] = rng.choice([[two], plain + [two], [two] + plain])
+        c["tag"] = "explode2"
+        cases.append(c)
     if ctx.thorough:
         for _ in range(30):
             c = gen_case(rng, engine="spark")
@@ -303,7 +315,7 @@ def compare(ctx, cases, drv):
                  sample={"case": {k: c[k] for k in ("tables", "rules", "link_type", "engine", "entry", "tag")}, "impl_rows": r.get("rows") if isinstance(r, dict) else None} if len(recs) <= 4 else None)
         ctx.count("tag", c["tag"].rstrip("01234")); ctx.count("engine", c["engine"]); ctx.count("link_type", backend_link_type(c))
         ctx.count("n_rules", len(c["rules"])); ctx.count("n_records", len(recs) if len(recs) < 6 else "6-12" if len(recs) <= 12 else ">12")
-        ctx.count("rule_kinds", "+".join(kinds) or "none"); ctx.count("has_null_outcome", null_outcome); ctx.count("asymmetric_rule", asym)
+        ctx.count("rule_kinds", "+".join(kinds) or "none"); ctx.count("max_exploded_columns_in_a_rule", max([len(bg.arr_cols(ru["ast"])) for ru in c["rules"] if ru["kind"] == "exploding"] or [0])); ctx.count("has_null_outcome", null_outcome); ctx.count("asymmetric_rule", asym)
         ctx.count("entry", c["entry"]); ctx.count("pairs_expected", len(must) if len(must) < 4 else "4-15" if len(must) <= 15 else ">15")
         if core.impl_error(r):
             ctx.count("impl_error", r["__error__"])
